@@ -18,15 +18,17 @@
      record_page_lock + guard construction (+ the harness' occupancy bump)     -> site 210
      force_unlock_read/write (+ the harness' occupancy decrement before it)    -> site 203
      entry.release()  fetch_sub, remembers whether it saw 1                    -> site 204 if it did
-     cleanup          (one shard-mutex critical section): if THE REMEMBERED entry's ref_count
-                      is 0 then map.remove(page_id) -- removal BY KEY
+     cleanup          (one shard-mutex critical section): if the remembered entry's ref_count
+                      is 0 and the map still points at this entry then map.remove(page_id)
+                      (before d1af26b: removal BY KEY without the identity check)
      table_intent_*   one critical section each (granted iff !exclusive; exclusive is never
                       set anywhere in the crate), release_table_intent_* one critical section.
    parking_lot: read() does not overtake a writer that has set WRITER_BIT and waits for the
    readers to drain (task-fair RwLock); try_write succeeds iff the lock word is 0.
 
-   [fx = true] is the REPAIRED cleanup (remove only if the map still holds this very entry);
-   [fx = false] is the code as it is. *)
+   [fx = true] is the code as it is: try_cleanup as repaired by /repo d1af26b (remove the mapping
+   only if the map still holds this very entry); [fx = false] is try_cleanup BEFORE d1af26b
+   (removal by key: finding F-C36-1), kept for the historical theorems. *)
 From Coq Require Import ZArith List Bool Arith.
 From TV Require Import Lib.Interleave.
 Import ListNotations.
